@@ -178,9 +178,10 @@ def run(chk: Check):
     rule_newline_neutral(chk, ix)
     # the line-continuation flag must not leak into the next logical line (C09 K6); flag-setting actions must not be re-run by
     # re-parsing the same position (C18 W1: a fork through unmemoised rules re-executes the actions on cached tokens)
-    from .c09 import rule_k6
+    from .c09 import rule_k4, rule_k6
     from .c18 import rule_w1
     from .. import constfold
+    rule_k4(chk, constfold.fold_tokenize(), ix)   # a page-break line between statements must measure as CPython does
     rule_k6(chk, constfold.fold_tokenize(), ix, False)
     rule_w1(chk, ir, False, "W1-memo-barrier")
     from .c07 import rule_m1, rule_m2
